@@ -19,7 +19,7 @@ BY_BLOC = {"name_PlackettLuce", "short_name_PlackettLuce", "name_BradleyTerry", 
 def cases(tier, seed):
     cs = []
     pss = gens.param_sets(tier, seed)
-    Ns = (1, 2, 3, 4, 7, 10)
+    Ns = (1, 2, 3, 4, 7, 10, 14, 45)  # small sizes give blocs without ballots; 10, 14, 45 separate joint from nested apportionment
     i = 0
     for pi, ps in enumerate(pss):
         for name in gens.GEN_NAMES:
@@ -28,7 +28,7 @@ def cases(tier, seed):
             ncand = sum(len(v) for v in ps["s2c"].values())
             for N in Ns:
                 i += 1
-                if tier == "quick" and i % 3:
+                if tier == "quick" and i % 3 and not (N in (1, 14, 45) and i % 2):
                     continue
                 extra = None
                 if name == "short_name_PlackettLuce":
